@@ -545,9 +545,13 @@ func TestC20(t *testing.T) {
 				oidSlot = true
 			}
 		}
+		if len(sl.path) >= 3 && fmt.Sprint(sl.path[len(sl.path)-3]) == "extendedKeyUsage" && fmt.Sprint(sl.path[len(sl.path)-2]) == "content" {
+			oidSlot = true // a usage is a name or an OID
+		}
 		var hv any
 		if oidSlot && rapid.Bool().Draw(t, "overlong") {
-			hv = rapid.SampledFrom([]any{"1.2.9223372036854775808", "1.2.18446744073709551616", "1.2.99999999999999999999999999999999999999", "1.2.2147483648", "2.5.4294967296"}).Draw(t, "oidvalue")
+			hv = rapid.SampledFrom([]any{"1.2.9223372036854775808", "1.2.18446744073709551616", "1.2.99999999999999999999999999999999999999", "1.2.2147483648", "2.5.4294967296",
+				"1.40.1", "0.40", "1.2147483647.1", "3.1.2", "1.50.3"}).Draw(t, "oidvalue") // arcs too large for gopki, and OIDs no DER encoding exists for
 			c.IsOID = c.Which == ent.File
 		} else {
 			hv = hostileValues[rapid.IntRange(0, len(hostileValues)-1).Draw(t, "hostile")]
